@@ -16,6 +16,8 @@ CLAIMS = {
  "C07": ("model_checking", "C01's harness over nested in-place applicators around unevaluatedProperties/unevaluatedItems (failing branches that recorded annotations, not, cousins, child locations), for every object/array instance of the template; thorough adds all map iteration orders.", "§6 C07"),
  "C08": ("model_checking", "C01's harness with the Go representation of every instance node symbolic (14 numeric kinds incl. float32/json.Number, typed slices/maps, Go arrays, named string/key types, pointer wrappers): the verdict on every path must equal the representation-independent reference verdict; panics are violations.", "§6 C08"),
  "C11": ("model_checking", "Real SSA of Equal on two independent symbolic JSON values with symbolic representations: on every path the result must equal JSON value equality (exact rational comparison of numbers, unordered objects, ordered arrays); panics are violations. Reflexivity/symmetry/transitivity follow within the bound.", "§6 C11"),
+ "C12": ("model_checking", "(a) hash law: hashValue on two symbolic values under one symbolic seed, maphash modelled as a chain of uninterpreted mixing functions: JSON-equal values must hash equal for every hash function and seed; (b) uniqueItems on symbolic arrays of mixed representations: verdict <=> no two elements are JSON-equal, over all seeds and collision patterns; (c) enum/const whose listed values are themselves symbolic: verdict <=> JSON equality with a listed value.", "§6 C12"),
+ "C15": ("model_checking", "ApplyDefaults (real SSA, applied twice per path) on a symbolic instance: the inserted (location, key, value) triples are compared by SMT queries with the specification's insertion conditions (never a required property, present values untouched, declared default recursively completed, created containers hold at least one default, idempotent); validateDefaults with every default value symbolic: nil exactly when each default satisfies its declaring subschema.", "§6 C15"),
 }
 
 ALL = [f"C{i:02d}" for i in range(1, 21)]
